@@ -8,7 +8,7 @@
 From Coq Require Import String.
 From Coq Require Import List Ascii ZArith Bool Lia.
 From CGV Require Import Base.PyBase Base.PyVal Base.NxGraph Base.PyGen Gen.ReaderGen Dialect.DialectImpl
-     Reader.ReaderImpl Reader.Grammar Reader.ReaderLemmas Reader.Lin Reader.ReaderSim Reader.ReaderMult.
+     Reader.ReaderImpl Reader.Grammar Reader.ReaderLemmas Reader.Lin Reader.GraphLemmas Reader.ReaderSim Reader.ReaderMult.
 Import ListNotations.
 Open Scope Z_scope.
 
@@ -50,36 +50,43 @@ Qed.
 (** ** a node without ring markers, followed by an arbitrary stopper *)
 Definition stail (m : option (list nat)) (b : option sym) : pystr := mult_str m ++ osym_str b.
 Definition sn_ok (m : option (list nat)) (b : option sym) : Prop :=
-  match m with Some ds => digits_ok ds = true /\ (1 <= digits_nat ds)%nat /\ b = None | None => True end.
+  match m with Some ds => digits_ok ds = true /\ (1 <= digits_nat ds)%nat | None => True end.
 Lemma stail_inner m b : sn_ok m b -> Forall inner (stail m b).
 Proof.
   intros H. unfold stail. apply Forall_app; split; [|apply inner_osym].
   apply inner_mult. destruct m; [now destruct H|exact I].
 Qed.
+Definition sbo0 (m : option (list nat)) (b : option sym) : Z := match m with Some _ => default_bond_order | None => oord b end.
 Lemma scan_simple m b c tl cur cyc : sn_ok m b -> stopper c ->
   exists x rdx, ring_scan cur (stail m b ++ c :: tl) 0 (clean_st cyc []) = Ok (x, rdx)
-                /\ r_cyc x = cyc /\ r_ces x = [] /\ bond_expr (stail m b ++ c :: tl) rdx = Ok (oord b).
+                /\ r_cyc x = cyc /\ r_ces x = [] /\ bond_expr (stail m b ++ c :: tl) rdx = Ok (sbo0 m b).
 Proof.
-  intros Hok Hs. unfold stail. destruct m as [ds|].
-  - destruct Hok as (_ & _ & ->). cbn [mult_str osym_str app]. rewrite app_nil_r.
-    rewrite clean_is_sym, scan_stop by reflexivity. eexists _, _. repeat split.
+  intros Hok Hs. unfold stail, sbo0. destruct m as [ds|].
+  - cbn [mult_str app]. rewrite clean_is_sym, scan_stop by reflexivity. eexists _, _. repeat split.
   - cbn [mult_str app].
     destruct (ring_scan_item cur [] b c tl cyc eq_refl Hs) as (x & E & S). cbn [rings_str app spec_rings] in E, S.
     injection S as S1 S2. exists x, (length (osym_str b)). split; [exact E|]. split; [assumption|]. split; [assumption|].
     apply (bond_of_prefix [] b c tl eq_refl).
 Qed.
-Lemma nmon_simple m b h tl : sn_ok m b -> str_in [h] fnc_eon = true -> h <> "|"%char ->
-  nmon_expr (stail m b ++ h :: tl) = Ok (Z.of_nat (mult_val m)).
+Lemma nmon_simple m b h tl : sn_ok m b -> str_in [h] fnc_eon = true -> h <> "|"%char -> sto_mem h = false ->
+  nmon_expr (stail m b ++ h :: tl) (sbo0 m b) = Ok (Z.of_nat (mult_val m), oord b).
 Proof.
-  intros Hok Hin Hnb. unfold stail. destruct m as [ds|].
-  - destruct Hok as (Hd & _ & ->). cbn [mult_str osym_str app mult_val]. rewrite app_nil_r.
+  intros Hok Hin Hnb Hsm. unfold stail, sbo0. destruct m as [ds|].
+  - destruct Hok as (Hd & _). cbn [mult_str app mult_val]. destruct (digits_ok_all ds Hd) as [Hall _].
+    assert (Hy : exists y ty, osym_str b ++ h :: tl = y :: ty /\ str_in [y] fnc_eon = true
+                 /\ (if sto_mem y then symbol_to_order_lookup [y] else Ok default_bond_order) = Ok (oord b)).
+    { destruct b as [s|]; cbn [osym_str app oord].
+      - eexists _, _. split; [reflexivity|]. split; [apply sym_in_eon|]. now rewrite sym_mem, sym_lookup.
+      - eexists _, _. split; [reflexivity|]. split; [assumption|]. now rewrite Hsm. }
+    destruct Hy as (y & ty & Ey & Hyin & Hybo). rewrite <- app_assoc, Ey.
     unfold nmon_expr. change (Ascii.eqb "|"%char "|"%char) with true. cbv iota. rewrite fnc0_spec.
-    assert (Hin1 : Forall inner ("|"%char :: digits_str ds))
-      by (constructor; [apply inner_bar|apply inner_digits; now apply digits_ok_all]).
-    change ("|"%char :: digits_str ds ++ h :: tl) with (("|"%char :: digits_str ds) ++ h :: tl).
-    rewrite (find_idx_inner _ fnc_eon Hin1 incl_eon). cbn [find_idx]. rewrite Hin. cbn [bind]. rewrite Nat.add_0_r. cbn [length].
-    unfold py_slice. cbn [app skipn]. replace (Datatypes.S (length (digits_str ds)) - 1)%nat with (length (digits_str ds)) by lia.
-    rewrite firstn_app, Nat.sub_diag, firstn_all. cbn [firstn]. rewrite app_nil_r. now apply py_int_full_digits.
+    rewrite (find_idx_count ds y ty Hall Hyin). cbn [bind].
+    unfold py_slice. cbn [skipn]. replace (Datatypes.S (length ds) - 1)%nat with (length (digits_str ds)) by (unfold digits_str; rewrite map_length; lia).
+    rewrite firstn_app, Nat.sub_diag, firstn_all. cbn [firstn]. rewrite app_nil_r. rewrite py_int_full_digits by assumption. cbn [bind].
+    assert (En : nth_error ("|"%char :: digits_str ds ++ y :: ty) (Datatypes.S (length ds)) = Some y).
+    { cbn [nth_error]. rewrite nth_error_app2 by (unfold digits_str; rewrite map_length; lia).
+      unfold digits_str. rewrite map_length, Nat.sub_diag. reflexivity. }
+    rewrite En, Hybo. reflexivity.
   - cbn [mult_str app mult_val]. unfold nmon_expr. destruct b as [s|]; cbn [osym_str app].
     + pose proof (nobar_sym s) as Hs. destruct (Ascii.eqb_spec (sym_char s) "|"%char); [contradiction|reflexivity].
     + destruct (Ascii.eqb_spec h "|"%char); [contradiction|reflexivity].
@@ -111,7 +118,7 @@ Proof.
   destruct (opened st pc) as [[[br ba] rc]|]; cbn [bind]; [|discriminate].
   destruct (ring_scan (s_current st) rest 0 (clean_st (s_cycle st) [])) as [[rs rdx]|]; cbn [bind]; [|discriminate].
   destruct (bond_expr rest rdx) as [bo|]; cbn [bind]; [|discriminate].
-  destruct (nmon_expr rest) as [n|]; cbn [bind]; [|discriminate].
+  destruct (nmon_expr rest bo) as [[n bo2]|]; cbn [bind]; [|discriminate].
   destruct (parse_graph_base_node fo nm) as [a|]; cbn [bind]; [|discriminate].
   match goal with |- (bind ?m _ = _ -> _) => destruct m as [rc'|] end; cbn [bind]; [|discriminate].
   destruct (add_nodes _ _ _ _ _ _ _ _) as [[[[g cu] pn] pb]|]; cbn [bind]; [|discriminate].
@@ -124,7 +131,7 @@ Qed.
 (** a node that does not close a branch: the recipe table afterwards *)
 Lemma node_step_recipes fo st pc nm rest st1 io ic : node_step fo st pc nm rest = Ok st1 ->
   fnc0 rest fnc_next_open = Ok io -> fnc0 rest fnc_next_close = Ok ic -> Nat.ltb ic io = false ->
-  exists n a br ba rc, nmon_expr rest = Ok n /\ parse_graph_base_node fo nm = Ok a /\ opened st pc = Ok (br, ba, rc)
+  exists n bo0 bo a br ba rc, nmon_expr rest bo0 = Ok (n, bo) /\ parse_graph_base_node fo nm = Ok a /\ opened st pc = Ok (br, ba, rc)
     /\ s_branch_anchor st1 = ba /\ s_branching st1 = br
     /\ s_recipes st1 = (if br then match rev ba with k :: _ => rec_append k (n, a, s_pbo st) rc | [] => rc end else rc).
 Proof.
@@ -132,9 +139,9 @@ Proof.
   destruct (opened st pc) as [[[br ba] rc]|]; cbn [bind] in H; [|discriminate].
   destruct (ring_scan (s_current st) rest 0 (clean_st (s_cycle st) [])) as [[rs rdx]|]; cbn [bind] in H; [|discriminate].
   destruct (bond_expr rest rdx) as [bo|]; cbn [bind] in H; [|discriminate].
-  destruct (nmon_expr rest) as [n|]; cbn [bind] in H; [|discriminate].
+  destruct (nmon_expr rest bo) as [[n bo2]|] eqn:En; cbn [bind] in H; [|discriminate].
   destruct (parse_graph_base_node fo nm) as [a|]; cbn [bind] in H; [|discriminate].
-  exists n, a, br, ba, rc. split; [reflexivity|]. split; [reflexivity|]. split; [reflexivity|].
+  exists n, bo, bo2, a, br, ba, rc. split; [exact En|]. split; [reflexivity|]. split; [reflexivity|].
   destruct br.
   - destruct (rev ba) as [|k0 r0]; cbn [bind] in H; [discriminate|].
     destruct (add_nodes _ _ _ _ _ _ _ _) as [[[[g cu] pn] pb]|]; cbn [bind] in H; [|discriminate].
@@ -183,7 +190,7 @@ Lemma close_mult P ms ds after K st anchor n0 a0 o0 es :
   close_branch (P ++ ")"%char :: osym_str ms ++ "|"%char :: digits_str ds ++ after_tail after K) st
   = ('(g, cur, _, base) <- exp_times (digits_nat ds - 1)
                               [(anchor, (n0, a0, match ms with Some s => Some (sym_ord s) | None => o0 end) :: es)]
-                              (s_g st) (s_current st) anchor (s_base_anchor st) ;;
+                              (s_g st) (s_current st) anchor (Some anchor) ;;
      prev <- of_option base EUnbound ;;
      Ok (mult_closed st g cur prev base after)).
 Proof.
@@ -197,14 +204,13 @@ Proof.
   assert (HlenD : length D = length ds) by (unfold D, digits_str; apply map_length).
   assert (Hfi : find_idx ("|"%char :: D ++ T) fnc_eon_b = Datatypes.S (length ds)).
   { cbn [find_idx]. change (str_in ["|"%char] fnc_eon_b) with false. cbv iota. f_equal. apply find_idx_digits_b; [assumption|]. eauto. }
-  assert (Hcb : exists cbv, of_option (nth_error T 0) EIndex = Ok cbv /\
-                 forall pbo, (if sto_mem cbv then o <- symbol_to_order_lookup [cbv] ;; Ok (Some o) else Ok pbo)
-                             = Ok (match after with Some s => Some (sym_ord s) | None => pbo end)).
-  { unfold T, after_tail. destruct after as [s|]; cbn [osym_str app nth_error of_option].
-    - eexists. split; [reflexivity|]. intros pbo. now rewrite sym_mem, sym_lookup.
-    - destruct (cont_head_b K HK) as (h' & tl' & -> & _ & Hm). cbn [nth_error of_option]. eexists. split; [reflexivity|].
-      intros pbo. now rewrite Hm. }
-  destruct Hcb as (cbv & Hcb1 & Hcb2).
+  assert (Hcb : forall pbo, (match nth_error T 0 with
+                             | Some cb => if sto_mem cb then o <- symbol_to_order_lookup [cb] ;; Ok (Some o) else Ok pbo
+                             | None => Ok pbo end)
+                            = Ok (match after with Some s => Some (sym_ord s) | None => pbo end)).
+  { intros pbo. unfold T, after_tail. destruct after as [s|]; cbn [osym_str app nth_error].
+    - now rewrite sym_mem, sym_lookup.
+    - destruct (cont_head_b K HK) as (h' & tl' & -> & _ & Hm). cbn [nth_error]. now rewrite Hm. }
   assert (HN : Z.to_nat (Z.of_nat (digits_nat ds) - 1) = (digits_nat ds - 1)%nat) by lia.
   destruct ms as [s|]; cbn [osym_str app nth_error].
   - (* ")" sym "|" digits *)
@@ -223,7 +229,7 @@ Proof.
     destruct base as [b|]; cbn [of_option bind]; [|reflexivity].
     replace (length P + 2 + Datatypes.S (length ds))%nat with (length P + (3 + length (digits_str ds)))%nat by (unfold digits_str; rewrite map_length; lia).
     rewrite nth_error_plus. cbn [plus nth_error]. rewrite nth_error_app2 by lia. rewrite Nat.sub_diag.
-    fold D. fold T. rewrite Hcb1. cbn [bind]. rewrite Hcb2. reflexivity.
+    fold D. fold T. rewrite Hcb. reflexivity.
   - (* ")" "|" digits *)
     cbn [ch_eq]. change (Ascii.eqb "|"%char "|"%char) with true. cbn [orb].
     destruct ds as [|d0 dr]; [contradiction|]. pose proof Hall as Hall'. cbn [forallb] in Hall'. apply andb_prop in Hall' as [Hd0 _].
@@ -242,7 +248,7 @@ Proof.
       replace n with (length P + (2 + length (digits_str (d0 :: dr))))%nat
         by (unfold digits_str; cbn [length map]; rewrite map_length; lia) end.
     rewrite nth_error_plus. cbn [plus nth_error]. rewrite nth_error_app2 by lia. rewrite Nat.sub_diag.
-    fold D. fold T. rewrite Hcb1. cbn [bind]. rewrite Hcb2. reflexivity.
+    fold D. fold T. rewrite Hcb. reflexivity.
 Qed.
 
 (** ** the expansion loop with a single recipe *)
@@ -274,30 +280,26 @@ Fixpoint body_entries (fo : float_oracle) (inc : Z) (body : list bnode) : option
       | _, _ => None
       end
   end.
-(** side conditions of body nodes: names, counts, no symbol behind a multiplier, and a multiplied
-    node is reached by a single bond *)
+(** side conditions of body nodes: names and counts *)
 Definition sn_okb (m : option (list nat)) (b : option sym) : bool :=
-  match m with Some ds => digits_ok ds && (1 <=? digits_nat ds)%nat && negb (is_some b) | None => true end.
+  match m with Some ds => digits_ok ds && (1 <=? digits_nat ds)%nat | None => true end.
 Lemma sn_okb_ok m b : sn_okb m b = true -> sn_ok m b.
 Proof.
-  unfold sn_okb, sn_ok. destruct m; [|trivial]. intros H. apply andb_prop in H as [H H3]. apply andb_prop in H as [H1 H2].
-  apply Nat.leb_le in H2. repeat split; try assumption. now destruct b.
+  unfold sn_okb, sn_ok. destruct m; [|trivial]. intros H. apply andb_prop in H as [H1 H2].
+  apply Nat.leb_le in H2. split; assumption.
 Qed.
 Fixpoint body_ok (fo : float_oracle) (inc : Z) (body : list bnode) : bool :=
   match body with
   | [] => true
-  | b :: r => name_ok fo (bn_name b) && sn_okb (bn_mult b) (bn_bond b)
-              && ((mult_val (bn_mult b) <=? 1)%nat || (inc =? 1))
-              && body_ok fo (oord (bn_bond b)) r
+  | b :: r => name_ok fo (bn_name b) && sn_okb (bn_mult b) (bn_bond b) && body_ok fo (oord (bn_bond b)) r
   end.
 
-Lemma eb_nodes_copies : forall n a o g cur p, ahas (S "node_for_adding") a = false -> (n <= 1)%nat \/ o = 1 ->
+Lemma eb_nodes_copies : forall n a o g cur p, ahas (S "node_for_adding") a = false ->
   eb_nodes n a (Some o) g cur (Some p) = Ok (m_copies n a g cur (Some p) o).
 Proof.
-  induction n as [|n IH]; intros a o g cur p Ha Hc; [reflexivity|].
+  induction n as [|n IH]; intros a o g cur p Ha; [reflexivity|].
   cbn [eb_nodes m_copies]. unfold py_add_node. rewrite Ha. cbn [bind of_option].
-  destruct n as [|n]; [reflexivity|]. destruct Hc as [Hc|Hc]; [lia|]. subst o.
-  change (order_attr (Some 1)) with (eorder 1). now rewrite (IH a 1 _ (cur + 1) cur Ha) by (right; reflexivity).
+  change (order_attr (Some o)) with (eorder o). now rewrite (IH a 1 _ (cur + 1) cur Ha).
 Qed.
 Lemma name_ok_ahas fo nm a : name_ok fo nm = true -> parse_graph_base_node fo nm = Ok a -> ahas (S "node_for_adding") a = false.
 Proof. unfold name_ok. intros H E. rewrite E in H. apply andb_prop in H as [_ H]. now destruct (ahas _ a). Qed.
@@ -321,13 +323,11 @@ Proof.
   - cbn in He. injection He as <-. reflexivity.
   - cbn [body_entries] in He. destruct (parse_graph_base_node fo (bn_name b)) as [a|] eqn:Ea; [|discriminate].
     destruct (body_entries fo (oord (bn_bond b)) r) as [es'|] eqn:Er; [|discriminate]. injection He as <-.
-    cbn [body_ok] in Hok. apply andb_prop in Hok as [Hok Hr]. apply andb_prop in Hok as [Hok Ho]. apply andb_prop in Hok as [Hn Hs].
+    cbn [body_ok] in Hok. apply andb_prop in Hok as [Hok Hr]. apply andb_prop in Hok as [Hn Hs].
     cbn [body_toks flat_map]. fold (body_toks r). unfold bnode_toks. rewrite <- !app_assoc. cbn [app].
     cbn [m_run m_step mk_m m_g m_next m_prev m_pend m_stack m_rings].
     rewrite Ea. cbn [bind eb_recipe]. rewrite Nat2Z.id.
-    assert (Hc : (mult_val (bn_mult b) <= 1)%nat \/ inc = 1).
-    { apply orb_prop in Ho as [Ho|Ho]; [left; now apply Nat.leb_le|right; now apply Z.eqb_eq]. }
-    rewrite (eb_nodes_copies _ a inc g next p (name_ok_ahas fo _ a Hn Ea) Hc).
+    rewrite (eb_nodes_copies _ a inc g next p (name_ok_ahas fo _ a Hn Ea)).
     destruct (m_copies_some (mult_val (bn_mult b)) a g next p inc) as (g' & nx & p' & Ec). rewrite Ec. cbn [bind].
     assert (Eb : forall ts0, m_run fo (osym_tok (bn_bond b) ++ ts0) (mk_m g' nx (Some p') 1 (top :: stk) rings)
                  = m_run fo ts0 (mk_m g' nx (Some p') (oord (bn_bond b)) (top :: stk) rings)).
@@ -402,20 +402,20 @@ Lemma node_step_mult fo st pc nm m ms ds after K ak n0 a0 o0 es p pend :
      '(g3, c3, _, base) <- copies_run (digits_nat ds - 1)
                              ((n0, a0, match ms with Some s => Some (sym_ord s) | None => o0 end)
                                 :: es ++ [(Z.of_nat (mult_val m), a, Some pend)])
-                             g2 nx (Some ak) (s_base_anchor st) ;;
+                             g2 nx (Some ak) (Some (Some ak)) ;;
      prev <- of_option base EUnbound ;;
      Ok (unit_done st a g3 c3 prev base after)).
 Proof.
   intros Hop Hp Hpb Hn Hs Hd HK. rewrite node_step_eq, Hop. cbn [bind].
   destruct (scan_simple m None ")"%char (osym_str ms ++ "|"%char :: digits_str ds ++ after_tail after K)
               (s_current st) (s_cycle st) Hs ltac:(repeat split)) as (xr & rdx & Es & Ec & Ece & Eb).
-  rewrite Es. cbn [bind]. rewrite Eb. cbn [bind oord].
-  rewrite (nmon_simple m None ")"%char _ Hs eq_refl ltac:(discriminate)). cbn [bind]. rewrite Nat2Z.id.
+  rewrite Es. cbn [bind]. rewrite Eb. cbn [bind].
+  rewrite (nmon_simple m None ")"%char _ Hs eq_refl ltac:(discriminate) eq_refl). cbn [bind oord]. rewrite Nat2Z.id.
   destruct (parse_graph_base_node fo nm) as [a|e] eqn:Ea; cbn [bind]; [|reflexivity].
   cbn [rev app]. rewrite rec_append_single. cbn [bind]. rewrite Ece, Hp, Hpb.
-  assert (Hn1 : (1 <= mult_val m)%nat) by (unfold mult_val; destruct m; [now destruct Hs as (_ & ? & _)|lia]).
-  rewrite (add_nodes_copies (mult_val m) a (s_g st) (s_current st) (Some p) (Some pend) pend
-             (name_ok_ahas fo nm a Hn Ea)) by (intros ? _; reflexivity).
+  assert (Hn1 : (1 <= mult_val m)%nat) by (unfold mult_val; destruct m; [now destruct Hs as (_ & ?)|lia]).
+  rewrite (add_nodes_copies (mult_val m) a 1 (s_g st) (s_current st) (Some p) (Some pend) pend
+             (name_ok_ahas fo nm a Hn Ea)) by (intros _ ? _; reflexivity).
   destruct (m_copies (mult_val m) a (s_g st) (s_current st) (Some p) pend) as [[g2 nx] pv] eqn:Ecp. cbn [bind].
   destruct (look_simple m None ")"%char (osym_str ms ++ "|"%char :: digits_str ds ++ after_tail after K) Hs)
     as (io & ic & Eio & Eic & Hlt & _).
@@ -425,7 +425,7 @@ Proof.
                (stail_inner m None Hs) Hd HK eq_refl eq_refl) end.
   cbn [s_g s_current s_base_anchor].
   rewrite exp_times_single.
-  destruct (copies_run _ _ g2 nx (Some ak) (s_base_anchor st)) as [[[[g3 c3] pn] base]|]; cbn [bind]; [|reflexivity].
+  destruct (copies_run _ _ g2 nx (Some ak) (Some (Some ak))) as [[[[g3 c3] pn] base]|]; cbn [bind]; [|reflexivity].
   destruct base as [b|]; cbn [of_option bind]; [|reflexivity].
   unfold mult_closed, unit_done. cbn [s_cycle s_pbo s_attributes]. rewrite Ec.
   destruct (mult_val m); [lia|]. reflexivity.
@@ -442,17 +442,16 @@ Proof. unfold lin_toks, bnode_toks. cbn. now rewrite app_nil_r. Qed.
 Lemma blin_ok fo first b : name_ok fo (bn_name b) = true -> sn_okb (bn_mult b) (bn_bond b) = true -> lin_ok fo (blin first b) = true.
 Proof.
   intros Hn Hs. unfold lin_ok. cbn [blin l_name l_rings l_mult l_bond l_close forallb is_nil]. rewrite Hn. cbn [andb].
-  unfold sn_okb in Hs. destruct (bn_mult b); [|reflexivity]. apply andb_prop in Hs as [Hs H3]. apply andb_prop in Hs as [H1 H2].
-  now rewrite H1, H2, H3.
+  unfold sn_okb in Hs. destruct (bn_mult b); [|reflexivity]. apply andb_prop in Hs as [H1 H2].
+  now rewrite H1, H2.
 Qed.
-Lemma copies_run_base r : forall n g cur prev base g' c' prev' base', (1 <= n)%nat ->
-  copies_run n r g cur prev base = Ok (g', c', prev', base') -> base' = Some prev' /\ prev' <> None.
+Lemma copies_run_base r : forall n g cur p g' c' prev' base',
+  copies_run n r g cur (Some p) (Some (Some p)) = Ok (g', c', prev', base') -> base' = Some prev' /\ prev' <> None.
 Proof.
-  induction n as [|n IH]; intros g cur prev base g' c' prev' base' Hn H; [lia|]. cbn [copies_run] in H.
-  destruct (eb_recipe r g cur prev) as [[[g1 c1] p1]|]; cbn [bind] in H; [|discriminate].
-  destruct n as [|n].
-  - cbn [copies_run] in H. injection H as <- <- <- <-. split; [reflexivity|discriminate].
-  - apply (IH _ _ _ _ _ _ _ _ ltac:(lia) H).
+  induction n as [|n IH]; intros g cur p g' c' prev' base' H.
+  - cbn in H. injection H as <- <- <- <-. split; [reflexivity|discriminate].
+  - cbn [copies_run] in H. destruct (eb_recipe r g cur (Some p)) as [[[g1 c1] p1]|]; cbn [bind] in H; [|discriminate].
+    apply (IH _ _ _ _ _ _ _ H).
 Qed.
 Lemma rec_set_empty k v : rec_set k v [] = [(k, v)]. Proof. reflexivity. Qed.
 
@@ -479,13 +478,28 @@ Lemma closing_K u K : closing_str u ++ K
   = ")"%char :: osym_str (u_ms u) ++ "|"%char :: digits_str (u_count u) ++ after_tail (u_after u) K.
 Proof. unfold closing_str, after_tail. cbn [app]. rewrite <- !app_assoc. cbn [app]. now rewrite <- !app_assoc. Qed.
 
+Lemma node_attrs_has g k a : node_attrs g k = Ok a -> has_node g k = true.
+Proof. unfold node_attrs, has_node. now destruct (gfind k g). Qed.
+Lemma nmon_n rest b1 b2 n1 o1 n2 o2 : nmon_expr rest b1 = Ok (n1, o1) -> nmon_expr rest b2 = Ok (n2, o2) -> n1 = n2.
+Proof.
+  unfold nmon_expr. destruct rest as [|c r]; [intros H1 H2; injection H1 as <- _; injection H2 as <- _; reflexivity|].
+  destruct (Ascii.eqb c "|"%char); [|intros H1 H2; injection H1 as <- _; injection H2 as <- _; reflexivity].
+  destruct (fnc0 (c :: r) fnc_eon) as [eon|]; cbn [bind]; [|discriminate].
+  destruct (py_int_full _) as [n|]; cbn [bind]; [|discriminate].
+  destruct (nth_error (c :: r) eon) as [cb|].
+  - destruct (sto_mem cb).
+    + destruct (symbol_to_order_lookup [cb]); cbn [bind]; [|discriminate]. intros H1 H2. injection H1 as <- _. injection H2 as <- _. reflexivity.
+    + cbn [bind]. intros H1 H2. injection H1 as <- _. injection H2 as <- _. reflexivity.
+  - cbn [bind]. intros H1 H2. injection H1 as <- _. injection H2 as <- _. reflexivity.
+Qed.
+
 Section UnitBody.
   Variables (fo : float_oracle) (u : unit_t) (ak : Z) (a0 : attrs) (K : pystr).
   Hypothesis Hpa : parse_graph_base_node fo (u_name u) = Ok a0.
   Hypothesis Hna : name_ok fo (u_name u) = true.
   Hypothesis Hbo : body_ok fo (oord (u_bond u)) (u_body u) = true.
   Hypothesis Hd : digits_ok (u_count u) = true.
-  Hypothesis HN : (2 <= digits_nat (u_count u))%nat.
+  Hypothesis HN : (1 <= digits_nat (u_count u))%nat.
   Hypothesis HK : cont K.
 
   Definition rest_toks : list tok :=
@@ -493,7 +507,7 @@ Section UnitBody.
 
   Lemma unit_body : forall body (first : bool) st x pre pc f es0,
     body <> [] -> Rel st x ->
-    (if first then m_stack x = [] /\ m_prev x = Some ak /\ s_recipes st = [] /\ s_attributes st = Some a0 /\ es0 = []
+    (if first then m_stack x = [] /\ m_prev x = Some ak /\ s_recipes st = [] /\ node_attrs (m_g x) ak = Ok a0 /\ es0 = []
      else m_stack x = [Some ak] /\ m_prev x <> None /\ s_recipes st = [(Some ak, (1, a0, Some 1) :: es0)]) ->
     Ascii.eqb (last pre pc) "("%char = first -> Forall nob pre ->
     body_ok fo (m_pend x) body = true -> last_bond_none body ->
@@ -508,7 +522,7 @@ Section UnitBody.
     end.
   Proof.
     induction body as [|b body IH]; intros first st x pre pc f es0 Hne HR Hfirst Hpc Hpre Hok Hlast Hlink; [contradiction|].
-    cbn [body_ok] in Hok. apply andb_prop in Hok as [Hok Hokr]. apply andb_prop in Hok as [Hok Hord]. apply andb_prop in Hok as [Hnm Hsn].
+    cbn [body_ok] in Hok. apply andb_prop in Hok as [Hok Hokr]. apply andb_prop in Hok as [Hnm Hsn].
     pose proof (sn_okb_ok _ _ Hsn) as Hs.
     set (RT := stail (bn_mult b) (bn_bond b) ++ flat_map bnode_str body ++ closing_str u ++ K).
     assert (Eloop : main_loop (length (b :: body) + f) fo pc (pre ++ flat_map bnode_str (b :: body) ++ closing_str u ++ K) st
@@ -522,7 +536,7 @@ Section UnitBody.
     destruct Hprev as (p & Ep). destruct (Rpb p Ep) as (Epb & Eat).
     assert (Hop : opened st (last pre pc) = Ok (true, [Some ak], [(Some ak, (1, a0, Some 1) :: es0)])).
     { unfold opened. rewrite Hpc. destruct first.
-      - destruct Hfirst as (Es & Epk & Erc & Eatt & ->). rewrite Eatt. cbn [of_option bind]. rewrite Rba, Es, Rp, Epk, Erc. reflexivity.
+      - destruct Hfirst as (Es & Epk & Erc & Eatt & ->). rewrite Rp, Epk, Rg, Eatt. cbn [bind]. rewrite Rba, Es, Erc. reflexivity.
       - destruct Hfirst as (Es & _ & Erc). rewrite Rbr, Rba, Es, Erc. reflexivity. }
     destruct body as [|b' r].
     - (* the last node of the branch *)
@@ -545,13 +559,12 @@ Section UnitBody.
       assert (Hent : body_entries fo (oord (u_bond u)) (u_body u) = Some (es0 ++ [(Z.of_nat (mult_val (bn_mult b)), a, Some (m_pend x))])).
       { apply Hlink. cbn [body_entries]. now rewrite Ea. }
       pose proof (m_copies_all fo u a0 _ [] (m_rings x) (osym_tok (u_after u)) Hpa Hna Hent Hbo
-                    (digits_nat (u_count u) - 1) g2 nx ak (s_base_anchor st)) as Hall.
+                    (digits_nat (u_count u) - 1) g2 nx ak (Some (Some ak))) as Hall.
       unfold mk_m in Hall. rewrite Hall. clear Hall.
       assert (Eao : match u_ms u with Some s => Some (sym_ord s) | None => Some 1 end = Some (oord (u_ms u))) by (now destruct (u_ms u)).
       rewrite Eao.
-      destruct (copies_run (digits_nat (u_count u) - 1) _ g2 nx (Some ak) (s_base_anchor st)) as [[[[g3 c3] pn] base]|] eqn:Ecr; cbn [bind]; [|reflexivity].
-      assert (HN1 : (1 <= digits_nat (u_count u) - 1)%nat) by lia.
-      destruct (copies_run_base _ _ _ _ _ _ _ _ _ _ HN1 Ecr) as (-> & Hpn). cbn [of_option bind].
+      destruct (copies_run (digits_nat (u_count u) - 1) _ g2 nx (Some ak) (Some (Some ak))) as [[[[g3 c3] pn] base]|] eqn:Ecr; cbn [bind]; [|reflexivity].
+      destruct (copies_run_base _ _ _ _ _ _ _ _ _ Ecr) as (-> & Hpn). cbn [of_option bind].
       assert (Ea' : forall ts0 st0, m_run fo (osym_tok (u_after u) ++ ts0) st0
                  = m_run fo ts0 {| m_g := m_g st0; m_next := m_next st0; m_prev := m_prev st0;
                                    m_pend := (match u_after u with Some s => sym_ord s | None => m_pend st0 end);
@@ -571,7 +584,9 @@ Section UnitBody.
       pose proof (blin_ok fo first b Hnm Hsn) as Hokb.
       assert (ERT : RT = lin_tail_str (blin first b) ++ k) by (unfold RT, k; now rewrite blin_tail).
       rewrite ERT.
-      assert (Hopn : l_open (blin first b) = true -> m_prev x <> None) by (intros _; rewrite Ep; discriminate).
+      assert (Hopn : l_open (blin first b) = true -> exists p0, m_prev x = Some p0 /\ has_node (m_g x) p0 = true).
+      { cbn [blin l_open]. intros Hf1. rewrite Hf1 in Hfirst. destruct Hfirst as (_ & Epk & _ & Eatt & _).
+        exists ak. split; [exact Epk|]. now apply (node_attrs_has _ _ a0). }
       pose proof (node_step_lin fo (blin first b) k st x (last pre pc) Hokb Hk
                     (conj Rg (conj Rc (conj Rp (conj Rcy (conj Rba (conj Rbr Rpb)))))) Hpc Hopn ltac:(cbn; intros C; now elim C)) as Hstep.
       change (l_name (blin first b)) with (bn_name b) in Hstep.
@@ -589,9 +604,9 @@ Section UnitBody.
         rewrite Ecp in Eeff. cbn [bind] in Eeff. injection Eeff as <-.
         destruct (look_lin fo (blin first b) k Hokb Hk) as (io & ic & Eio & Eic & Elt). cbn [blin l_close is_some] in Elt.
         destruct (node_step_recipes fo st (last pre pc) (bn_name b) _ st1 io ic Est Eio Eic Elt)
-          as (n & a' & br & ba & rc & En & Ea2 & Eop & Eba & Ebr & Erc).
+          as (n & bo0 & bo1 & a' & br & ba & rc & En & Ea2 & Eop & Eba & Ebr & Erc).
         rewrite Hop in Eop. injection Eop as <- <- <-. rewrite Ea in Ea2. injection Ea2 as <-.
-        rewrite (nmon_lin fo (blin first b) k Hokb Hk) in En. injection En as <-. cbn [blin l_mult] in Erc.
+        pose proof (nmon_n _ _ _ _ _ _ _ En (nmon_lin fo (blin first b) k Hokb Hk)) as Enn. subst n. cbn [blin l_mult] in Erc.
         cbn [rev app] in Erc. rewrite rec_append_single, Epb in Erc.
         set (x1 := {| m_g := g2; m_next := nx; m_prev := Some p'; m_pend := oord (bn_bond b);
                       m_stack := (if first then Some p :: m_stack x else m_stack x); m_rings := m_rings x |}) in *.
@@ -618,6 +633,72 @@ Section UnitBody.
   Qed.
 End UnitBody.
 
+(** ** every step of the machine keeps its graph well formed *)
+Lemma rt_del_forall (P : Z * (Z * Z) -> Prop) m t : Forall P t -> Forall P (rt_del m t).
+Proof. rewrite rt_del_cyc. apply cyc_del_forall. Qed.
+Lemma m_step_mwf fo x t x1 : m_step fo x t = Ok x1 -> mwf x -> mwf x1.
+Proof.
+  intros E [Hf Hp Hs Hr]. destruct t as [nm n|o m|s| |]; cbn [m_step] in E.
+  - destruct (parse_graph_base_node fo nm) as [a|]; cbn [bind] in E; [|discriminate].
+    destruct (m_copies n a (m_g x) (m_next x) (m_prev x) (m_pend x)) as [[g2 nx] pv] eqn:Ec. injection E as <-.
+    destruct (m_copies_nodes _ _ _ _ _ _ _ _ _ Hp Ec) as (Enx & Hg2 & Epv).
+    assert (Hmono : forall k, has_node (m_g x) k = true -> has_node g2 k = true) by (intros k Hk; rewrite Hg2, Hk; reflexivity).
+    split; cbn [m_g m_next m_prev m_stack m_rings].
+    + intros k Hk. rewrite Hg2 in Hk. apply orb_prop in Hk as [Hk|Hk]; [specialize (Hf k Hk); lia|].
+      apply andb_prop in Hk as [_ Hk]. apply Z.ltb_lt in Hk. lia.
+    + destruct n as [|n].
+      * cbn in Ec. injection Ec as <- <- <-. exact Hp.
+      * intros p Ep. rewrite Epv in Ep by lia. injection Ep as <-. rewrite Hg2.
+        apply orb_true_iff. right. apply andb_true_iff. split; [apply Z.leb_le|apply Z.ltb_lt]; lia.
+    + eapply Forall_impl; [|exact Hs]. intros o0 Ho p Ep. apply Hmono. now apply Ho.
+    + eapply Forall_impl; [|exact Hr]. intros e He. now apply Hmono.
+  - destruct (m_prev x) as [cur|] eqn:Ep; [|discriminate]. pose proof (Hp cur eq_refl) as Hcur.
+    rewrite rt_get_cyc in E. destruct (cyc_get m (m_rings x)) as [[n0 o0]|] eqn:Eg.
+    + destruct (has_edge (m_g x) cur n0); [discriminate|]. injection E as <-.
+      assert (Hn0 : has_node (m_g x) n0 = true).
+      { apply cyc_get_in in Eg. rewrite Forall_forall in Hr. apply (Hr _ Eg). }
+      assert (Hk : forall k, has_node (add_edge (m_g x) cur n0 (eorder o0)) k = has_node (m_g x) k).
+      { intros k. rewrite has_node_add_edge. destruct (Z.eqb_spec cur k) as [->|]; [now rewrite Hcur|].
+        destruct (Z.eqb_spec n0 k) as [->|]; [now rewrite Hn0|]. now rewrite !orb_false_r. }
+      split; cbn.
+      * intros k Hk0. rewrite Hk in Hk0. now apply Hf.
+      * intros p Ep0. rewrite Hk. now apply Hp.
+      * eapply Forall_impl; [|exact Hs]. intros o1 Ho p Ep0. rewrite Hk. now apply Ho.
+      * apply rt_del_forall. eapply Forall_impl; [|exact Hr]. intros e He. now rewrite Hk.
+    + injection E as <-. split; cbn; try assumption. apply Forall_app; split; [assumption|]. constructor; [exact Hcur|constructor].
+  - injection E as <-. split; assumption.
+  - injection E as <-. split; cbn; try assumption. constructor; assumption.
+  - destruct (m_stack x) as [|top stk] eqn:Es; [discriminate|]. injection E as <-. inversion Hs; subst. split; cbn; assumption.
+Qed.
+Lemma m_run_mwf fo : forall ts x x1, m_run fo ts x = Ok x1 -> mwf x -> mwf x1.
+Proof.
+  induction ts as [|t r IH]; intros x x1 E Hw; [cbn in E; now injection E as <-|].
+  cbn [m_run] in E. destruct (m_step fo x t) as [x2|] eqn:E2; cbn [bind] in E; [|discriminate].
+  apply (IH x2 x1 E). now apply (m_step_mwf fo x t).
+Qed.
+(** the attribute dict of the last copy of a node that was just added *)
+Lemma m_copies_attrs : forall n a g next prev pend g' nx last,
+  (forall k, has_node g k = true -> k < next) -> exists_in g prev ->
+  m_copies (Datatypes.S n) a g next prev pend = (g', nx, Some last) -> node_attrs g' last = Ok a.
+Proof.
+  induction n as [|n IH]; intros a g next prev pend g' nx last Hf Hp E; cbn [m_copies] in E.
+  - injection E as <- _ <-.
+    assert (Hnew : has_node g next = false).
+    { destruct (has_node g next) eqn:Hn; [|reflexivity]. specialize (Hf next Hn). lia. }
+    destruct prev as [p|].
+    + rewrite node_attrs_add_edge by (rewrite has_node_add_node, Z.eqb_refl; apply orb_true_r). now apply node_attrs_add_node_new.
+    + now apply node_attrs_add_node_new.
+  - set (g2 := match prev with Some p => add_edge (add_node g next a) p next (eorder pend) | None => add_node g next a end) in *.
+    assert (Hg2 : forall k, has_node g2 k = has_node g k || Z.eqb next k).
+    { intros k. unfold g2. destruct prev as [p|].
+      - rewrite has_node_add_edge, has_node_add_node. specialize (Hp p eq_refl).
+        destruct (Z.eqb_spec p k) as [->|]; [rewrite Hp; now destruct (next =? k)|]. now destruct (has_node g k), (next =? k).
+      - apply has_node_add_node. }
+    apply (IH a g2 (next + 1) (Some next) 1 g' nx last); [| |exact E].
+    + intros k Hk. rewrite Hg2 in Hk. apply orb_prop in Hk as [Hk|Hk]; [specialize (Hf k Hk); lia|]. apply Z.eqb_eq in Hk. lia.
+    + intros p Ep. injection Ep as <-. rewrite Hg2, Z.eqb_refl. apply orb_true_r.
+Qed.
+
 (** ** a whole unit: anchor, branch, multiplier *)
 Definition unit_str (u : unit_t) : pystr :=
   "["%char :: "#"%char :: u_name u ++ "]"%char :: stail (u_mult u) (u_bond u) ++ "("%char :: flat_map bnode_str (u_body u) ++ closing_str u.
@@ -628,11 +709,11 @@ Definition unit_ok (fo : float_oracle) (u : unit_t) : bool :=
   name_ok fo (u_name u) && sn_okb (u_mult u) (u_bond u) && negb (is_nil (u_body u))
   && body_ok fo (oord (u_bond u)) (u_body u)
   && match rev (u_body u) with b :: _ => negb (is_some (bn_bond b)) | [] => false end
-  && digits_ok (u_count u) && (2 <=? digits_nat (u_count u))%nat.
+  && digits_ok (u_count u) && (1 <=? digits_nat (u_count u))%nat.
 Definition unit_nodes (u : unit_t) : nat := Datatypes.S (length (u_body u)).
 
 Lemma unit_sim fo u K : unit_ok fo u = true -> cont K ->
-  forall st x pre pc f, Rel st x -> m_stack x = [] -> s_recipes st = [] ->
+  forall st x pre pc f, Rel st x -> mwf x -> m_stack x = [] -> s_recipes st = [] ->
   Forall skipch pre -> pc <> "("%char ->
   match m_run fo (unit_toks u) x with
   | Ok x1 => exists st1 pre1,
@@ -641,7 +722,7 @@ Lemma unit_sim fo u K : unit_ok fo u = true -> cont K ->
   | Err e => main_loop (unit_nodes u + f) fo pc (pre ++ unit_str u ++ K) st = Err e
   end.
 Proof.
-  intros Hok HK st x pre pc f HR Hstk Hrc Hpre Hpc. unfold unit_ok in Hok.
+  intros Hok HK st x pre pc f HR Hw Hstk Hrc Hpre Hpc. unfold unit_ok in Hok.
   apply andb_prop in Hok as [Hok HN]. apply andb_prop in Hok as [Hok Hd]. apply andb_prop in Hok as [Hok Hlb].
   apply andb_prop in Hok as [Hok Hbo]. apply andb_prop in Hok as [Hok Hne]. apply andb_prop in Hok as [Hna Hsn].
   apply Nat.leb_le in HN.
@@ -671,16 +752,19 @@ Proof.
   unfold item_effect in Eeff. cbn [A blin l_name l_open l_mult l_rings l_bond l_close bn_name bn_mult bn_bond] in Eeff.
   rewrite Ea0 in Eeff. cbn [bind spec_rings snd fst add_cycle_edges] in Eeff.
   assert (Hn1 : (1 <= mult_val (u_mult u))%nat).
-  { pose proof (sn_okb_ok _ _ Hsn) as Hs. unfold mult_val. destruct (u_mult u); [now destruct Hs as (_ & ? & _)|lia]. }
+  { pose proof (sn_okb_ok _ _ Hsn) as Hs. unfold mult_val. destruct (u_mult u); [now destruct Hs as (_ & ?)|lia]. }
   destruct (m_copies_prev (mult_val (u_mult u)) a0 (m_g x) (m_next x) (m_prev x) (m_pend x) Hn1) as (g2 & nx & ak & Ecp & _).
   rewrite Ecp in Eeff. cbn [bind] in Eeff. injection Eeff as <-.
   set (x1 := {| m_g := g2; m_next := nx; m_prev := Some ak; m_pend := oord (u_bond u); m_stack := m_stack x; m_rings := m_rings x |}) in *.
   assert (Hrc1' : s_recipes st1 = []) by (apply Hrc1; [exact Hstk|intros _; exact Hrc]).
   assert (Hlb' : last_bond_none (u_body u)).
   { unfold last_bond_none. destruct (rev (u_body u)) as [|z t]; [exact I|]. now destruct (bn_bond z). }
-  pose proof (unit_body fo u ak a0 K Ea0 Hna Hbo Hd HN HK (u_body u) true st1 x1
+  pose proof (unit_body fo u ak a0 K Ea0 Hna Hbo Hd HK (u_body u) true st1 x1
                 (stail (u_mult u) (u_bond u) ++ ["("%char]) "]"%char f [] Hbne HR1) as Hbody.
-  assert (Hf1 : m_stack x1 = [] /\ m_prev x1 = Some ak /\ s_recipes st1 = [] /\ s_attributes st1 = Some a0 /\ (@nil recipe_entry) = []).
+  assert (Hattr : node_attrs g2 ak = Ok a0).
+  { destruct (mult_val (u_mult u)) as [|n0]; [lia|].
+    apply (m_copies_attrs n0 a0 (m_g x) (m_next x) (m_prev x) (m_pend x) g2 nx ak (w_fresh x Hw) (w_prev x Hw) Ecp). }
+  assert (Hf1 : m_stack x1 = [] /\ m_prev x1 = Some ak /\ s_recipes st1 = [] /\ node_attrs (m_g x1) ak = Ok a0 /\ (@nil recipe_entry) = []).
   { repeat split; try assumption. }
   specialize (Hbody Hf1). clear Hf1.
   assert (Hp1 : Ascii.eqb (last (stail (u_mult u) (u_bond u) ++ ["("%char]) "]"%char) "("%char = true) by (now rewrite last_last).
@@ -726,7 +810,7 @@ Qed.
 
 Theorem sim_segs fo : forall l st x pre pc f,
   forallb (seg_ok fo) l = true -> seg_depth (length (m_stack x)) l = true ->
-  Rel st x -> all_some (m_stack x) -> (m_stack x = [] -> s_recipes st = []) ->
+  Rel st x -> all_some (m_stack x) -> mwf x -> (m_stack x = [] -> s_recipes st = []) ->
   (m_prev x = None -> match l with SPlain i :: _ => l_open i = false | _ => True end) ->
   Forall skipch pre -> pc <> "("%char ->
   match m_run fo (segs_toks l) x with
@@ -734,7 +818,7 @@ Theorem sim_segs fo : forall l st x pre pc f,
   | Err e => main_loop (segs_nodes l + Datatypes.S f) fo pc (pre ++ segs_str l ++ ["}"%char]) st = Err e
   end.
 Proof.
-  induction l as [|[i|u] t IH]; intros st x pre pc f Hok Hd HR Hs Hinv Hfirst Hpre Hpc.
+  induction l as [|[i|u] t IH]; intros st x pre pc f Hok Hd HR Hs Hw Hinv Hfirst Hpre Hpc.
   - cbn [segs_toks flat_map m_run segs_str app segs_nodes plus main_loop]. exists st. split; [|assumption].
     rewrite next_node_skip by (now apply skipch_nob). now rewrite next_node_single.
   - (* a flat item: as in [sim_loop] *)
@@ -758,16 +842,20 @@ Proof.
       - rewrite app_nil_r. apply Ascii.eqb_neq. now apply last_skipch. }
     assert (Hop : l_open i = true -> m_prev x <> None).
     { intros Ho Hn0. specialize (Hfirst Hn0). cbn in Hfirst. congruence. }
+    assert (Hop2 : l_open i = true -> exists p, m_prev x = Some p /\ has_node (m_g x) p = true).
+    { intros Ho. specialize (Hop Ho). destruct (m_prev x) as [p|] eqn:Ep; [|contradiction]. exists p. split; [reflexivity|].
+      apply (w_prev x Hw). exact Ep. }
     assert (Hst : l_close i <> None -> (if l_open i then m_prev x :: m_stack x else m_stack x) <> []).
     { intros Hc. cbn [seg_depth] in Hd. destruct (l_open i); [discriminate|].
       destruct (l_close i); [|contradiction]. destruct (m_stack x); [discriminate|discriminate]. }
-    pose proof (node_step_lin fo i k st x _ Hoki Hk HR Hpc' Hop Hst) as Hstep.
+    pose proof (node_step_lin fo i k st x _ Hoki Hk HR Hpc' Hop2 Hst) as Hstep.
     destruct (item_effect fo i x) as [x1|e] eqn:Eeff; cbn [bind]; [|now rewrite Hstep].
     destruct Hstep as (st1 & -> & HR1 & Hrc1). cbn [bind].
+    pose proof (item_effect_mwf fo i x x1 Hoki Eeff Hw) as Hw1.
     destruct (item_effect_inv fo i x x1 Hoki Eeff Hs Hop) as (Hs1 & Hp1 & Hd1).
     assert (Hdt : seg_depth (length (m_stack x1)) t = true).
     { cbn [seg_depth] in Hd. cbv zeta in Hd1. destruct (l_close i); rewrite Hd1 in Hd; exact Hd. }
-    unfold k. apply (IH st1 x1 (lin_tail_str i) "]"%char f Hokt Hdt HR1 Hs1).
+    unfold k. apply (IH st1 x1 (lin_tail_str i) "]"%char f Hokt Hdt HR1 Hs1 Hw1).
     + intros E. now apply Hrc1.
     + intros Hn0. contradiction.
     + now apply (lin_tail_skipch fo).
@@ -780,11 +868,12 @@ Proof.
     cbn [segs_str flat_map seg_str segs_nodes seg_nodes]. fold (segs_str t).
     set (K := segs_str t ++ ["}"%char]).
     assert (HK : cont K) by apply cont_segs.
-    pose proof (unit_sim fo u K Hoku HK st x pre pc (segs_nodes t + Datatypes.S f) HR Hstk (Hinv Hstk) Hpre Hpc) as Hu.
+    pose proof (unit_sim fo u K Hoku HK st x pre pc (segs_nodes t + Datatypes.S f) HR Hw Hstk (Hinv Hstk) Hpre Hpc) as Hu.
     replace (unit_nodes u + segs_nodes t + Datatypes.S f)%nat with (unit_nodes u + (segs_nodes t + Datatypes.S f))%nat by lia.
     rewrite <- app_assoc. fold K.
-    destruct (m_run fo (unit_toks u) x) as [x1|e]; cbn [bind]; [|exact Hu].
+    destruct (m_run fo (unit_toks u) x) as [x1|e] eqn:Erun; cbn [bind]; [|exact Hu].
     destruct Hu as (st1 & pre1 & -> & Hpre1 & HR1 & Hrc1 & Hstk1 & Hp1).
+    pose proof (m_run_mwf fo _ x x1 Erun Hw) as Hw1.
     unfold K. apply (IH st1 x1 pre1 "]"%char f Hokt); try assumption.
     + now rewrite Hstk1.
     + rewrite Hstk1. constructor.
@@ -824,7 +913,7 @@ Proof.
   assert (Ef : Datatypes.S (length ("{"%char :: segs_str l ++ ["}"%char])) = (segs_nodes l + Datatypes.S f)%nat).
   { cbn [length]. rewrite app_length. cbn [length]. unfold f. lia. }
   rewrite Ef.
-  pose proof (sim_segs fo l init_state m_init ["{"%char] "}"%char f Hok Hd HR (Forall_nil _) (fun _ => eq_refl)) as Hsim.
+  pose proof (sim_segs fo l init_state m_init ["{"%char] "}"%char f Hok Hd HR (Forall_nil _) mwf_init (fun _ => eq_refl)) as Hsim.
   cbn [app] in Hsim.
   assert (H1 : m_prev m_init = None -> match l with SPlain i :: _ => l_open i = false | _ => True end).
   { intros _. destruct l as [|[i|u] t]; try exact I. now destruct (l_open i). }
